@@ -41,11 +41,22 @@ fn classify<T>(r: &Result<T, Error>) -> String {
 
 /// Concrete archive name for abstract name `n` whose TABLE_OFFSET hash lands on slot `home` of a
 /// table with `hsize` slots. The spelling rotates with the seed.
-fn concretise(n: &str, home: u64, hsize: u64, seed: u64, taken: &[String]) -> String {
+fn concretise(n: &str, home: u64, hsize: u64, seed: u64, taken: &[String], long: bool) -> String {
     let dirs = ["data", "Interface\\Glue", "world\\maps", "sound", "x"];
     let exts = ["bin", "blp", "txt", "m2", "dbc"];
     let mut rng = Rng::derive(seed, &format!("name:{n}"));
-    let d = dirs[rng.below(dirs.len() as u64) as usize];
+    let mut d = dirs[rng.below(dirs.len() as u64) as usize].to_string();
+    if long {
+        // name-length class "long" (case attribute `longnames`): paths of 220..250 characters, so that the (listfile) of even
+        // a three-file archive is larger than one 512-byte allocation unit
+        let words = ["Textures", "Backgrounds", "HighResolution", "Expansion03", "Northrend", "Dungeons", "Interface", "Module"];
+        let want = 215 + rng.below(30) as usize;
+        while d.len() < want {
+            d.push('\\');
+            d.push_str(words[rng.below(words.len() as u64) as usize]);
+        }
+    }
+    let d = d.as_str();
     let e = exts[rng.below(exts.len() as u64) as usize];
     let start = rng.below(500);
     for k in start..start + 100_000 {
@@ -130,6 +141,9 @@ fn init_class(c: &Value, j: usize) -> i64 {
 }
 fn init_content(seed: u64, case: &str, n: &str, cls: i64) -> Vec<u8> {
     let label = format!("{case}:init:{n}");
+    if cls >= 7 {
+        return vec![];          // content class "empty": a file of length 0
+    }
     if cls == 0 {
         return content(seed, &label, true, false);
     }
@@ -141,6 +155,89 @@ fn init_content(seed: u64, case: &str, n: &str, cls: i64) -> Vec<u8> {
         v[i] = b;
     }
     v
+}
+
+
+/// Spelling variant of a concrete archive name: MPQ names are case-insensitive, so `sp` = 1 (upper case)
+/// names the same file as `sp` = 0 (the canonical spelling the universe was built with).
+fn spell(cn: &str, sp: i64) -> String {
+    if sp == 1 { cn.to_ascii_uppercase() } else { cn.to_string() }
+}
+
+fn hex_or_zero(b: &[u8]) -> String {
+    if b.iter().all(|x| *x == 0) { "zero".to_string() } else { b.iter().map(|x| format!("{x:02x}")).collect() }
+}
+fn crc_hex(d: &[u8]) -> String {
+    hex_or_zero(&crc32fast::hash(d).to_be_bytes())
+}
+fn md5_of_hex(d: &[u8]) -> String {
+    md5_hex(d)
+}
+
+/// Projection of the special files of a freshly opened archive (observations only):
+/// `lf`: has / lines of the raw (listfile) as [abstract name, spelling] (special names as they are, unknown lines "?<line>");
+/// `at`: has / loaded / flags / rows [crc, md5, filetime class] per block / block index (1-based) of every universe name
+/// and of both special files / block count.
+fn specials_obs(arch: &mut Archive, uni: &Uni) -> (Value, Value) {
+    let has_lf = matches!(arch.find_file("(listfile)"), Ok(Some(_)));
+    let mut lines: Vec<Value> = vec![];
+    let mut lf_res = "none".to_string();
+    if has_lf {
+        match guarded(|| arch.read_file("(listfile)")) {
+            Outcome::Done(Ok(d)) => {
+                lf_res = "ok".into();
+                for l in String::from_utf8_lossy(&d).lines() {
+                    let l = l.trim();
+                    if l.is_empty() {
+                        continue;
+                    }
+                    if l == "(listfile)" || l == "(attributes)" {
+                        lines.push(json!([l, 0]));
+                        continue;
+                    }
+                    match uni.conc.iter().position(|c| c.eq_ignore_ascii_case(l)) {
+                        Some(i) => {
+                            let sp = if uni.conc[i] == l { 0 } else if uni.conc[i].to_ascii_uppercase() == l { 1 } else { 2 };
+                            lines.push(json!([uni.abs[i], sp]));
+                        }
+                        None => lines.push(json!([format!("?{l}"), 2])),
+                    }
+                }
+            }
+            Outcome::Done(Err(e)) => lf_res = format!("err:{}", variant_name(&e)),
+            _ => lf_res = "panic".into(),
+        }
+    }
+    let lf = json!({"has":has_lf,"res":lf_res,"lines":lines});
+    let nblk = arch.block_table().map(|t| t.entries().len()).unwrap_or(0);
+    let mut blk = Map::new();
+    for (a, c) in uni.abs.iter().zip(uni.conc.iter()).map(|(a, c)| (a.clone(), c.clone())).chain([("(listfile)".to_string(), "(listfile)".to_string()), ("(attributes)".to_string(), "(attributes)".to_string())]) {
+        let b = match arch.find_file(&c) {
+            Ok(Some(fi)) => fi.block_index as i64 + 1,
+            _ => 0,
+        };
+        blk.insert(a, json!(b));
+    }
+    let has_at = matches!(arch.find_file("(attributes)"), Ok(Some(_)));
+    let mut loaded = false;
+    let mut flags: Vec<&str> = vec![];
+    let mut rows: Vec<Value> = vec![];
+    if has_at {
+        loaded = matches!(guarded(|| arch.load_attributes()), Outcome::Done(Ok(())));
+        if let (true, Some(at)) = (loaded, arch.attributes()) {
+            if at.flags.has_crc32() { flags.push("crc"); }
+            if at.flags.has_filetime() { flags.push("ft"); }
+            if at.flags.has_md5() { flags.push("md5"); }
+            for r in &at.file_attributes {
+                let crc = r.crc32.map(|c| hex_or_zero(&c.to_be_bytes())).unwrap_or("-".into());
+                let md5 = r.md5.map(|m| hex_or_zero(&m)).unwrap_or("-".into());
+                let ft = r.filetime.map(|t| if t == 0 { "zero" } else { "set" }).unwrap_or("-");
+                rows.push(json!([crc, md5, ft]));
+            }
+        }
+    }
+    let at = json!({"has":has_at,"loaded":loaded,"flags":flags,"nrows":rows.len(),"rows":rows,"blk":Value::Object(blk),"nblk":nblk});
+    (lf, at)
 }
 
 struct Start {
@@ -166,7 +263,11 @@ fn build_start(path: &Path, c: &Value, uni: &Uni, seed: u64, case: &str) -> Resu
         let mut b = ArchiveBuilder::new()
             .version(version(ver))
             .listfile_option(if lf { ListfileOption::Generate } else { ListfileOption::None })
-            .attributes_option(if at { AttributesOption::GenerateCrc32 } else { AttributesOption::None });
+            .attributes_option(match (at, c.get("atfull").and_then(|x| x.as_bool()).unwrap_or(false)) {
+                (false, _) => AttributesOption::None,
+                (true, false) => AttributesOption::GenerateCrc32,
+                (true, true) => AttributesOption::GenerateFull,
+            });
         for (j, n) in init.iter().enumerate() {
             let cls = init_class(c, j);
             let data = init_content(seed, case, n, cls);
@@ -174,6 +275,7 @@ fn build_start(path: &Path, c: &Value, uni: &Uni, seed: u64, case: &str) -> Resu
             b = match cls {
                 3 | 4 => b.add_file_data_with_options(data, uni.conc_of(n), comp, true, 0),
                 5 | 6 => b.add_file_data_with_encryption(data, uni.conc_of(n), comp, true, 0),
+                8 => b.add_file_data_with_options(data, uni.conc_of(n), comp, true, 0),
                 _ => b.add_file_data_with_options(data, uni.conc_of(n), comp, false, 0),
             };
         }
@@ -294,29 +396,18 @@ fn checkpoint(cx: &Ctx, case: &str, path: &Path, uni: &Uni, fin: bool, ck: usize
             Outcome::Panic(_) => ("panic".to_string(), -1, "none".to_string()),
             Outcome::Hang => unreachable!(),
         };
-        cx.trace.ev(json!({"ev":"Read","case":case,"n":a,"res":res,"len":len,"tok":t,"fin":fin,"ck":ck}));
+        // stored form of the file as the block table shows it (flags COMPRESS / ENCRYPTED / FIX_KEY / SINGLE_UNIT, sizes)
+        let (fl, csz, fsz) = match arch.find_file(c) {
+            Ok(Some(fi)) => (json!({"c":fi.flags & 0x0000_0200 != 0 || fi.flags & 0x0000_0100 != 0,"e":fi.flags & 0x0001_0000 != 0,"k":fi.flags & 0x0002_0000 != 0,"s":fi.flags & 0x0100_0000 != 0}), fi.compressed_size as i64, fi.file_size as i64),
+            _ => (json!({"c":false,"e":false,"k":false,"s":false}), -1, -1),
+        };
+        cx.trace.ev(json!({"ev":"Read","case":case,"n":a,"res":res,"len":len,"tok":t,"fin":fin,"ck":ck,"fl":fl,"csz":csz,"fsz":fsz}));
     }
-    // D-level: where the archive carries (attributes), the CRC32 recorded for each readable universe file
-    // equals the CRC32 of its content (attributes maintenance of MutableArchive)
-    if matches!(arch.find_file("(attributes)"), Ok(Some(_))) {
-        let loaded = matches!(guarded(|| arch.load_attributes()), Outcome::Done(Ok(())));
-        let mut bad: Vec<String> = vec![];
-        let mut checked = 0;
-        if loaded {
-            for (a, c) in uni.abs.iter().zip(uni.conc.iter()) {
-                if let Outcome::Done(Ok(d)) = guarded(|| arch.read_file(c)) {
-                    if let Ok(Some(fi)) = arch.find_file(c) {
-                        checked += 1;
-                        let rec = arch.get_file_attributes(fi.block_index).and_then(|x| x.crc32);
-                        if rec != Some(crc32fast::hash(&d)) {
-                            bad.push(a.clone());
-                        }
-                    }
-                }
-            }
-        }
-        cx.trace.ev(json!({"ev":"Attrs","case":case,"ck":ck,"loaded":loaded,"checked":checked,"bad":bad}));
-    }
+    // the special files as a fresh open finds them: raw (listfile) lines and the parsed (attributes) rows
+    let (lfo, ato) = specials_obs(&mut arch, uni);
+    cx.trace.ev(json!({"ev":"LfRaw","case":case,"ck":ck,"fin":fin,"has":lfo["has"],"res":lfo["res"],"lines":lfo["lines"]}));
+    cx.trace.ev(json!({"ev":"Attrs","case":case,"ck":ck,"fin":fin,"has":ato["has"],"loaded":ato["loaded"],"flags":ato["flags"],"nrows":ato["nrows"],
+        "rows":ato["rows"],"blk":ato["blk"],"nblk":ato["nblk"]}));
     let r = guarded(|| arch.list());
     let (res, names) = match r {
         Outcome::Done(Ok(l)) => {
@@ -360,6 +451,7 @@ fn run_history(cx: &Ctx, c: &Value, dir: &Path, seed: u64) {
     let nfiles = init.len() + 1 + lf as usize + at as usize;
     let hsize = ((nfiles * 2).max(16) as u64).next_power_of_two();
     let mut uni = Uni { abs: vec![], conc: vec![] };
+    let long = c.get("longnames").and_then(|x| x.as_bool()).unwrap_or(false);
     // pairs (n, inside): the spelling of `n` must be a substring of the spelling of `inside`
     // (update_listfile tests `content.contains(name)`): both are found together, `inside` = "x" + n
     let mut forced: std::collections::HashMap<String, String> = std::collections::HashMap::new();
@@ -393,13 +485,13 @@ fn run_history(cx: &Ctx, c: &Value, dir: &Path, seed: u64) {
         let home = gi(nm, "home") as u64;
         let cn = match forced.get(n) {
             Some(f) => f.clone(),
-            None => concretise(n, home, hsize, seed, &uni.conc),
+            None => concretise(n, home, hsize, seed, &uni.conc, long),
         };
         uni.abs.push(n.to_string());
         uni.conc.push(cn);
     }
     let padhome = c.get("padhome").and_then(|x| x.as_i64()).unwrap_or(0) as u64;
-    let cn = concretise("pad", padhome, hsize, seed, &uni.conc);
+    let cn = concretise("pad", padhome, hsize, seed, &uni.conc, long);
     uni.abs.push("pad".into());
     uni.conc.push(cn);
 
@@ -411,6 +503,8 @@ fn run_history(cx: &Ctx, c: &Value, dir: &Path, seed: u64) {
     // initial map: tokens of what a fresh open reads (recorded before the history)
     let mut initial = Map::new();
     let mut toks = Map::new();
+    let mut dig = Map::new();
+    let (lf0, at0);
     {
         let mut a = Archive::open(&path).unwrap_or_else(|e| tool_error(&format!("open start: {e:?}")));
         for (ab, cn) in uni.abs.iter().zip(uni.conc.iter()) {
@@ -426,8 +520,14 @@ fn run_history(cx: &Ctx, c: &Value, dir: &Path, seed: u64) {
             if t != "none" {
                 toks.insert(format!("i:{ab}"), json!(t));
             }
+            if let Ok(d) = a.read_file(cn) {
+                dig.insert(t.clone(), json!([crc_hex(&d), md5_of_hex(&d)]));
+            }
             initial.insert(ab.clone(), json!(t));
         }
+        let (l, t) = specials_obs(&mut a, &uni);
+        lf0 = l;
+        at0 = t;
     }
     let homes: Vec<Value> = uni.conc.iter().map(|cn| json!((hash_string(cn, hash_type::TABLE_OFFSET) as u64) & (st.hsize - 1))).collect();
     let devs: Vec<String> = c.get("devs").and_then(|d| d.as_array()).map(|a| a.iter().filter_map(|x| x.as_str().map(String::from)).collect()).unwrap_or_default();
@@ -436,7 +536,8 @@ fn run_history(cx: &Ctx, c: &Value, dir: &Path, seed: u64) {
     cx.trace.ev(json!({"ev":"Reset","case":case,"cls":gs(c,"cls"),"ver":gi(c,"ver"),"lf":lf,"at":at,
         "slack":st.slack_bytes,"hsize":st.hsize,"nblocks0":st.nblocks0,"nspecial":st.nspecial - 1,"tail":st.tail,
         "universe":uni.abs,"concrete":uni.conc,"homes":homes,"initial":Value::Object(initial),
-        "devs":devs.join("+"),"preds":c.get("preds").cloned().unwrap_or(json!([])),"toks":Value::Object(toks),"pres":c.get("pres").cloned().unwrap_or(json!([])),"psr":c.get("psr").cloned().unwrap_or(json!([])),"nops":ga(c,"ops").len()}));
+        "devs":devs.join("+"),"preds":c.get("preds").cloned().unwrap_or(json!([])),"toks":Value::Object(toks),"pres":c.get("pres").cloned().unwrap_or(json!([])),"psr":c.get("psr").cloned().unwrap_or(json!([])),"nops":ga(c,"ops").len(),
+        "atfull":c.get("atfull").and_then(|x| x.as_bool()).unwrap_or(false),"longnames":long,"dig":Value::Object(dig),"lf0":lf0,"at0":at0}));
 
     let mut m: Option<MutableArchive> = None;
     let open = |cx: &Ctx, m: &mut Option<MutableArchive>, oi: usize| -> bool {
@@ -475,7 +576,7 @@ fn run_history(cx: &Ctx, c: &Value, dir: &Path, seed: u64) {
                 };
                 let data = by_key
                     .entry(key.clone())
-                    .or_insert_with(|| content(seed, &format!("{case}:op{oi}:{n}"), comp != "none", big))
+                    .or_insert_with(|| if key == "empty" { vec![] } else { content(seed, &format!("{case}:op{oi}:{n}"), comp != "none", big) })
                     .clone();
                 let mut opts = AddFileOptions::new()
                     .compression(match comp {
@@ -489,8 +590,10 @@ fn run_history(cx: &Ctx, c: &Value, dir: &Path, seed: u64) {
                 } else if enc == "fix" {
                     opts = opts.fix_key();
                 }
-                let cn = uni.conc_of(n).to_string();
-                let ev = json!({"ev":"Add","case":case,"oi":oi + 1,"okey":key,"n":n,"tok":tok(&data),"len":data.len(),"rep":rep,"comp":comp,"enc":enc,"st":no_state()});
+                let sp = o.get("sp").and_then(|x| x.as_i64()).unwrap_or(0);
+                let cn = spell(uni.conc_of(n), sp);
+                let ev = json!({"ev":"Add","case":case,"oi":oi + 1,"okey":key,"n":n,"sp":sp,"tok":tok(&data),"len":data.len(),"rep":rep,"comp":comp,"enc":enc,
+                    "crc":crc_hex(&data),"md5":md5_of_hex(&data),"st":no_state()});
                 let ma = m.as_mut().unwrap();
                 let (ares, _) = cx.op_with(ev, || { let r = classify(&ma.add_file_data(&data, &cn, opts)); (r, state_of(ma)) }, |ev, st| ev["st"] = st.clone());
                 let _ = ares;
@@ -498,17 +601,20 @@ fn run_history(cx: &Ctx, c: &Value, dir: &Path, seed: u64) {
             }
             "remove" => {
                 let n = gs(o, "n");
-                let cn = uni.conc_of(n).to_string();
+                let sp = o.get("sp").and_then(|x| x.as_i64()).unwrap_or(0);
+                let cn = spell(uni.conc_of(n), sp);
                 let ma = m.as_mut().unwrap();
-                cx.op_with(json!({"ev":"Remove","case":case,"oi":oi + 1,"n":n,"st":no_state()}), || { let r = classify(&ma.remove_file(&cn)); (r, state_of(ma)) }, |ev, st| ev["st"] = st.clone());
+                cx.op_with(json!({"ev":"Remove","case":case,"oi":oi + 1,"n":n,"sp":sp,"st":no_state()}), || { let r = classify(&ma.remove_file(&cn)); (r, state_of(ma)) }, |ev, st| ev["st"] = st.clone());
                 session_read(cx, &case, m.as_mut().unwrap(), n, &cn, oi + 1);
             }
             "rename" => {
                 let a = gs(o, "n");
                 let b = gs(o, "m");
-                let (ca, cb) = (uni.conc_of(a).to_string(), uni.conc_of(b).to_string());
+                let sp = o.get("sp").and_then(|x| x.as_i64()).unwrap_or(0);
+                let spm = o.get("spm").and_then(|x| x.as_i64()).unwrap_or(0);
+                let (ca, cb) = (spell(uni.conc_of(a), sp), spell(uni.conc_of(b), spm));
                 let ma = m.as_mut().unwrap();
-                cx.op_with(json!({"ev":"Rename","case":case,"oi":oi + 1,"n":a,"m":b,"st":no_state()}), || { let r = classify(&ma.rename_file(&ca, &cb)); (r, state_of(ma)) }, |ev, st| ev["st"] = st.clone());
+                cx.op_with(json!({"ev":"Rename","case":case,"oi":oi + 1,"n":a,"m":b,"sp":sp,"spm":spm,"st":no_state()}), || { let r = classify(&ma.rename_file(&ca, &cb)); (r, state_of(ma)) }, |ev, st| ev["st"] = st.clone());
                 session_read(cx, &case, m.as_mut().unwrap(), b, &cb, oi + 1);
             }
             "compact" => {
